@@ -786,6 +786,148 @@ static void static_blocking(void)
                 }
             }
         }
+        /* a switch that FAILS: the peer closes, this end sees the end of the connection, and the switch to blocking
+           mode - which has to finish outstanding work first - is attempted through both spellings.  Whatever the
+           call answers, the two views agree with each other and with that answer: 0 = the socket is now blocking,
+           -1 = refused, nothing changed */
+        API("xcm_close", 1, xcm_close(acc));
+        acc = NULL;
+        {
+            unsigned char b[8];
+            for (int i = 0; i < 20; i++) {
+                int rc = API("xcm_receive", 1, xcm_receive(c, b, sizeof b));
+                if (rc == 0 || (rc < 0 && errno != EAGAIN))
+                    break;
+            }
+            API("xcm_send", 1, xcm_send(c, b, 1));
+            API("xcm_send", 1, xcm_send(c, b, 1));
+            for (int sp = 0; sp < 2; sp++) {
+                int rc = sp == 0 ? API("xcm_attr_set", 1, xcm_attr_set_bool(c, "xcm.blocking", true))
+                                 : API("xcm_set_blocking", 1, xcm_set_blocking(c, true));
+                int err = errno;
+                bool want = rc == 0;
+                struct val g;
+                int ok = get_val(c, "xcm.blocking", &g) == 0 && g.type == TY_BOOL;
+                g_cells++;
+                if (!ok || g.b != want || xcm_is_blocking(c) != want) {
+                    snprintf(sig, sizeof sig, "C11/blocking-switch-outcome-disagrees/%s/tp=%s", sp == 0 ? "xcm_attr_set" : "xcm_set_blocking", TPS[t]);
+                    V(sig, "%s connection closed by its peer: %s(blocking=true) returned %d (%s), yet xcm.blocking reads %d and "
+                      "xcm_is_blocking says %d", TPS[t], sp == 0 ? "xcm_attr_set" : "xcm_set_blocking", rc, rc < 0 ? errname(err) : "ok",
+                      ok ? g.b : -1, xcm_is_blocking(c));
+                }
+                if (xcm_is_blocking(c))
+                    xcm_set_blocking(c, false);
+            }
+        }
+        API("xcm_close", 1, xcm_close(c));
+        API("xcm_close", 1, xcm_close(srv));
+        /* the accept-time override: xcm.blocking given in the xcm_accept_a map of a NON-blocking server socket is a value
+           "accepted through the attribute map of xcm_accept_a": the accepted socket exists, both views report the
+           map's value, and the server socket keeps its own mode */
+        for (int ov = 0; ov < 2; ov++) {
+            mk_static_addr(TPS[t], 230 + 2 * t + ov, addr, sizeof addr, "127.0.0.1");
+            struct xcm_attr_map *nm = nb_map(bs), *am = nb_map(bs);
+            xcm_attr_map_add_bool(am, "xcm.blocking", ov);
+            srv = API("xcm_server_a", 1, xcm_server_a(addr, nm));
+            c = srv ? API("xcm_connect_a", 1, xcm_connect_a(addr, nm)) : NULL;
+            acc = NULL;
+            int aerr = 0;
+            for (int i = 0; c && i < 50 && !acc; i++) {
+                acc = API("xcm_accept_a", 1, xcm_accept_a(srv, am));
+                aerr = errno;
+                if (!acc && aerr != EAGAIN)
+                    break;
+                if (!acc)
+                    API("xcm_finish", 1, xcm_finish(c));
+            }
+            g_cells++;
+            if (!srv || !c) {
+                snprintf(sig, sizeof sig, "internal/static-establish/tp=%s", TPS[t]);
+                mc_violation(sig, "could not set up %s: %s", addr, errname(errno));
+            } else if (!acc) {
+                snprintf(sig, sizeof sig, "C11/accept-map-refused/xcm.blocking=%d/tp=%s", ov, TPS[t]);
+                V(sig, "xcm_accept_a on a non-blocking %s server with xcm.blocking=%d in the map: no socket (%s)", TPS[t], ov,
+                  errname(aerr));
+            } else {
+                struct val g;
+                int ok = get_val(acc, "xcm.blocking", &g) == 0 && g.type == TY_BOOL;
+                if (!ok || g.b != (bool)ov || xcm_is_blocking(acc) != (bool)ov) {
+                    snprintf(sig, sizeof sig, "C11/accept-override-ignored/xcm.blocking=%d/tp=%s", ov, TPS[t]);
+                    V(sig, "non-blocking %s server, accept map xcm.blocking=%d: accepted socket reads %d, xcm_is_blocking says %d",
+                      TPS[t], ov, ok ? g.b : -1, xcm_is_blocking(acc));
+                }
+                if (xcm_is_blocking(srv)) {
+                    snprintf(sig, sizeof sig, "C11/accept-override-changed-server/xcm.blocking/tp=%s", TPS[t]);
+                    V(sig, "the %s server socket became blocking through the map of xcm_accept_a", TPS[t]);
+                }
+            }
+            if (c) API("xcm_close", 1, xcm_close(c));
+            if (acc) API("xcm_close", 1, xcm_close(acc));
+            if (srv) API("xcm_close", 1, xcm_close(srv));
+            xcm_attr_map_destroy(nm);
+            xcm_attr_map_destroy(am);
+        }
+    }
+}
+
+/* values the library's own range check admits but the kernel refuses (setsockopt -> EINVAL), offered on ESTABLISHED sockets:
+   whatever the set answers, xcm_attr_get and the option in force on the descriptor agree with that answer
+   (-1: refused, nothing changed - also when the same value is offered again; 0: accepted, reported and in force) */
+static void static_kernel_refusal(void)
+{
+    static const char *TPS[] = { "tcp", "tls", "btcp", "btls" };
+    static const struct { const char *name; int64_t v; int opt; } KR[] = {
+        { "tcp.keepalive_count", 200, TCP_KEEPCNT }, { "tcp.keepalive_time", 100000, TCP_KEEPIDLE },
+        { "tcp.keepalive_interval", 100000, TCP_KEEPINTVL } };
+    char sig[200], addr[200];
+    for (int t = 0; t < 4; t++) {
+        int bs = !strncmp(TPS[t], "bt", 2);
+        mk_static_addr(TPS[t], 260 + t, addr, sizeof addr, "127.0.0.1");
+        struct xcm_attr_map *m = nb_map(bs);
+        struct xcm_socket *srv, *acc, *c = establish_pair(addr, addr, m, m, m, &srv, &acc);
+        xcm_attr_map_destroy(m);
+        if (!c || !acc) {
+            snprintf(sig, sizeof sig, "internal/static-establish/tp=%s", TPS[t]);
+            mc_violation(sig, "could not establish %s: %s", addr, errname(errno));
+            continue;
+        }
+        int cfd = -1, port;
+        char ip[64];
+        if (env_connect_log_count() > 0)
+            env_connect_log_entry(env_connect_log_count() - 1, &cfd, ip, sizeof ip, &port);
+        int fds[2] = { cfd, cfd >= 0 ? env_conn_fd_peer(cfd) : -1 };
+        struct xcm_socket *ss[2] = { c, acc };
+        for (int i = 0; i < 2; i++)
+            for (int k = 0; k < 3; k++) {
+                struct val before, after;
+                g_cells++;
+                if (get_val(ss[i], KR[k].name, &before) < 0)
+                    continue;
+                int inforce0 = 0, have0 = fds[i] >= 0 && env_sockopt_get(fds[i], SOL_TCP, KR[k].opt, &inforce0);
+                for (int rep = 0; rep < 2; rep++) {
+                    int rc = API("xcm_attr_set", 1, xcm_attr_set_int64(ss[i], KR[k].name, KR[k].v));
+                    int err = errno;
+                    if (get_val(ss[i], KR[k].name, &after) < 0)
+                        break;
+                    int inforce = 0, have = fds[i] >= 0 && env_sockopt_get(fds[i], SOL_TCP, KR[k].opt, &inforce);
+                    int64_t want = rc == 0 ? KR[k].v : before.i;
+                    if (after.i != want) {
+                        snprintf(sig, sizeof sig, "C11/get-differs-from-accepted/%s/after-kernel-refusal/tp=%s", KR[k].name, TPS[t]);
+                        V(sig, "%s %s socket: xcm_attr_set(%s=%lld) returned %d (%s)%s; xcm_attr_get reports %lld, the last accepted "
+                          "value is %lld", TPS[t], i ? "accepted" : "connect-side", KR[k].name, (long long)KR[k].v, rc,
+                          rc < 0 ? errname(err) : "ok", rep ? " when offered a second time" : "", (long long)after.i, (long long)want);
+                    }
+                    if (rc == 0 && have && inforce != KR[k].v) {
+                        snprintf(sig, sizeof sig, "C11/accepted-but-not-in-force/%s/after-kernel-refusal/tp=%s", KR[k].name, TPS[t]);
+                        V(sig, "%s %s socket: xcm_attr_set(%s=%lld) returned 0%s but the descriptor has %d", TPS[t],
+                          i ? "accepted" : "connect-side", KR[k].name, (long long)KR[k].v, rep ? " when offered a second time" : "", inforce);
+                    }
+                    if (rc < 0 && have0 && have && inforce != inforce0) {
+                        snprintf(sig, sizeof sig, "C11/refused-set-changed-descriptor/%s/tp=%s", KR[k].name, TPS[t]);
+                        V(sig, "%s: a refused set of %s changed the option in force from %d to %d", TPS[t], KR[k].name, inforce0, inforce);
+                    }
+                }
+            }
         API("xcm_close", 1, xcm_close(c));
         API("xcm_close", 1, xcm_close(acc));
         API("xcm_close", 1, xcm_close(srv));
@@ -1042,6 +1184,7 @@ static void task_static(void *arg)
     int all = !strcmp(part, "all");
     if (all || !strcmp(part, "service")) static_service();
     if (all || !strcmp(part, "blocking")) static_blocking();
+    if (all || !strcmp(part, "kernel")) static_kernel_refusal();
     if (all || !strcmp(part, "local")) static_local_addr();
     if (all || !strcmp(part, "map")) static_creation_map();
     if (all || !strcmp(part, "inherit")) static_inherit();
